@@ -66,10 +66,32 @@ package stubs
 //@   ensures result0 >= 0 && result0 <= len(s) && count(written) == old(count(written)) + result0
 //@   ensures result1 == nil ==> result0 == len(s)
 
+// bytes.Buffer by content (a ghost string per buffer); only appending writes are modelled
+//@ gstate bufStr(b int) string
 //@ extern bytes.NewBuffer
-//@   ensures result != nil && fresh(result)
+//@   ensures result != nil && fresh(result) && bufStr(refOf(result)) == str(buf)
 //@ extern (*bytes.Buffer).Bytes
+//@   params b
+//@   ensures str(result) == bufStr(refOf(b))
 //@ extern (*bytes.Buffer).String
+//@   params b
+//@   ensures result == bufStr(refOf(b))
+//@ extern (*bytes.Buffer).Len
+//@   params b
+//@   ensures result == len(bufStr(refOf(b)))
+//@ extern (*bytes.Buffer).WriteString
+//@   params b, s
+//@   modifies bufStr[refOf(b)]
+//@   ensures bufStr(refOf(b)) == old(bufStr(refOf(b))) + s && result0 == len(s) && result1 == nil
+// (the clauses for 1..4 bytes are instances of the first one, spelled out byte by byte)
+//@ extern (*bytes.Buffer).Write
+//@   params b, p
+//@   modifies bufStr[refOf(b)]
+//@   ensures bufStr(refOf(b)) == old(bufStr(refOf(b))) + str(p) && result0 == len(p) && result1 == nil
+//@   ensures len(p) == 1 ==> bufStr(refOf(b)) == old(bufStr(refOf(b))) + chr(int(p[0]))
+//@   ensures len(p) == 2 ==> bufStr(refOf(b)) == old(bufStr(refOf(b))) + chr(int(p[0])) + chr(int(p[1]))
+//@   ensures len(p) == 3 ==> bufStr(refOf(b)) == old(bufStr(refOf(b))) + chr(int(p[0])) + chr(int(p[1])) + chr(int(p[2]))
+//@   ensures len(p) == 4 ==> bufStr(refOf(b)) == old(bufStr(refOf(b))) + chr(int(p[0])) + chr(int(p[1])) + chr(int(p[2])) + chr(int(p[3]))
 
 // The engine's optional debugger only observes.
 //@ noeffect engine.Debug
@@ -210,3 +232,9 @@ package stubs
 //@   ensures len(old) == len(new) ==> len(result) == len(s)
 // a zero Builder is empty
 //@ zerovalue strings.Builder sbLen(refOf(x)) == 0
+
+// decimal rendering of an unsigned integer: a pure function; between 1 and 20 digits
+//@ ufun decimalOf(n int) string
+//@ axiom all[int](n, len(decimalOf(n)) >= 1 && len(decimalOf(n)) <= 20)
+//@ extern strconv.FormatUint
+//@   ensures base == 10 ==> result == decimalOf(int(i))
